@@ -83,7 +83,8 @@ def project(rec):
     import re
     d = {k: rec[k] for k in ('id', 'doc', 'srclen', 'outcome', 'parts')}
     # name of the control sequence each snippet starts with (for the exclusion of self-recursive definitions)
-    d['cs'] = [(re.match(r'\\[A-Za-z@]+', s_) or [''])[0] if isinstance(s_, str) else '' for s_ in rec['doc']]
+    # all control sequences of the text in order (a snippet may hold several: \def\y#1)
+    d['cs'] = re.findall(r'\\[A-Za-z@]+', rec.get('text') or ''.join(s_ for s_ in rec['doc'] if isinstance(s_, str)))
     return d
 
 
